@@ -789,3 +789,13 @@ MUTANTS["C16"] += [
     M("revert_flags_set_order", ARCH, "        flags = list(dict.fromkeys(flags))\n", "        flags = list(set(flags))\n", "R5", "revert of the fix"),
     M("flags_sorted_set_is_fine", ARCH, "        flags = list(dict.fromkeys(flags))\n", "        flags = sorted(set(flags))\n", "SILENT", "a total order removes the hash dependence"),
 ]
+
+_PART_OLD = ("            starts = [tid * workload for tid in range(num_cores)]\n            ends = [min((tid + 1) * workload, klen) for tid in range(num_cores)]\n"
+             "            instrs = [kernel[s:e] for s, e in zip(starts, ends)]\n")
+_PART_DIRECT = ("            instrs = [\n                kernel[first : first + workload]\n                for first in range(0, num_cores * workload, workload)\n            ]\n")
+for _p, _r in (("C16", "R1"), ("C05", "R3")):
+    MUTANTS[_p] += [
+        M("direct_slices_are_fine", KDG, _PART_OLD, _PART_DIRECT, "SILENT", "slicing clips at the end of the kernel; c * ceil(n/c) >= n"),
+        M("direct_slices_floor_chunk", KDG, [_PART_OLD, "workload = int((klen - 1) / num_cores) + 1"], [_PART_DIRECT, "workload = max(1, klen // num_cores)"], _r,
+          "range(0, c * floor(n/c), W) stops before the end of the kernel"),
+    ]
